@@ -188,6 +188,23 @@ pub fn run(case: &serde_json::Value, out: &mut String) {
                     Outcome::Ok(s.recompute_transitions_for(if ts.is_empty() { None } else { Some(ts) }), String::new())
                 }
                 "consistent_end" => Outcome::Ok(s.reassign_end_depots_consistent_with_transitions(), String::new()),
+                // transition replacement: one vehicle moved to the end of cycle k (Transition::move_vehicle, the move of
+                // the transition optimiser), the result stored with set_next_day_transitions
+                "movetrans" => match pick(&real, &op[1]) {
+                    Some(v) => {
+                        let ty = s.vehicle_type_of(v).unwrap();
+                        let tr = s.next_day_transition_of(ty);
+                        let k = (op[2].as_u64().unwrap() as usize) % std::cmp::max(tr.number_of_cycles(), 1);
+                        desc = format!("{} {}", vid(v), k);
+                        let moved = tr.move_vehicle(v, k, s.get_tours(), &s.get_network());
+                        let mut m: im::HashMap<VehicleTypeIdx, solution::transition::Transition> = im::HashMap::new();
+                        for t in s.get_network().vehicle_types().iter() {
+                            m.insert(t, if t == ty { moved.clone() } else { s.next_day_transition_of(t).clone() });
+                        }
+                        Outcome::Ok(s.set_next_day_transitions(m), String::new())
+                    }
+                    None => Outcome::Skip,
+                },
                 _ => panic!("unknown op"),
             }
         });
